@@ -66,6 +66,14 @@ theorem transfer_functions_hermitian_odd (m n : ℕ) (hm : m % 2 = 1) (hn : n % 
     KerEven (smearKernel m n dist ang ps os) m n :=
   ⟨pixelKernel_even m n hm hn os, jitterKernel_even m n hm hn scale ps os, smearKernel_even m n hm hn dist ang ps os⟩
 
+/-- **pixel and jitter are Hermitian on every shape.** The pixel kernel is even in `f_y` and `f_x` separately and the jitter kernel
+depends on `f_x² + f_y²` only, so at the unpaired Nyquist sample of an even axis (where `−u ≡ u` and the frequency keeps its
+value) nothing changes: `K[−u, −v] = K[u, v]` for all rows and columns, even or odd. Only the directional sinc of `smear` needs
+the Nyquist allowance of the statement. -/
+theorem pixel_jitter_hermitian_all_shapes (m n : ℕ) (hm : 0 < m) (hn : 0 < n) (os scale ps : ℝ) :
+    KerEven (pixelKernel m n os) m n ∧ KerEven (jitterKernel m n scale ps os) m n :=
+  ⟨pixelKernel_even_any m n hm hn os, jitterKernel_even_any m n hm hn scale ps os⟩
+
 /-- zero extent (pixel width / jitter sigma / smear distance `0`) makes the transfer function identically one -/
 theorem zero_extent_kernel_one (s0 s1 : ℤ) (os ang ps : ℝ) (i j : ℤ) :
     (pixelKernel s0 s1 (0 : ℝ)).get i j = 1 ∧ (jitterKernel s0 s1 0 ps os).get i j = 1 ∧
@@ -175,9 +183,9 @@ example : ∃ (a b : ℤ), a < 0 ∧ 0 < b := ⟨-3, 2, by norm_num, by norm_num
 /-- **a non-negative convolution is returned unchanged and keeps the total** (conditional form, any axis parity; partial). Writing the exact circular
 convolution as the inverse transform of the product, `c = ifft2(fft2(img)·K)`: wherever `c` is real and non-negative the
 un-normalised output equals it, and if it is so at every sample the output total is `K[0,0]·Σ img = Σ img`.
-*Not proved:* that `c` is real — i.e. Hermitian symmetry of the three transfer functions on odd axes, and the size of the
-deviation caused by the unpaired Nyquist row/column on even axes; and the spatial-domain form of the convolution
-(convolution theorem). These clauses are evaluated on the real code by the oracle only. -/
+Realness of `c` is a hypothesis here; it is *proved* for pixel and jitter on every shape and for smear on odd × odd shapes
+(`pixel_jitter_equal_convolution_all_shapes`, `blurs_equal_convolution_odd`), so this conditional form is only needed for
+smear on even axes. -/
 theorem nonneg_convolution_kept_partial (img k : Arr ℝ) (m n : ℕ) (hm : img.s0 = m) (hn : img.s1 = n) (hm0 : 0 < m)
     (hn0 : 0 < n) (r : ℕ → ℕ → ℝ) (hr : ∀ i j, 0 ≤ r i j)
     (hc : ∀ i j : ℕ, i < m → j < n →
@@ -244,6 +252,20 @@ theorem blurs_equal_convolution_odd (img : Arr ℝ) (m n : ℕ) (hm : img.s0 = m
     equals_convolution_when_hermitian img _ m n hm hn hm0 hn0 h.2.2⟩
 
 example : ∃ m n : ℕ, m % 2 = 1 ∧ n % 2 = 1 ∧ m ≠ n := ⟨3, 5, rfl, rfl, by norm_num⟩
+
+/-- **pixel and jitter equal the convolution on every shape**, even axes included, with no realness assumption: the output is
+`|c|` with `c` the real exact circular convolution, equals `c` wherever `c ≥ 0`, keeps the total (unit DC gain), and the
+renormalised jitter output equals `c` too. -/
+theorem pixel_jitter_equal_convolution_all_shapes (img : Arr ℝ) (m n : ℕ) (hm : img.s0 = m) (hn : img.s1 = n) (hm0 : 0 < m)
+    (hn0 : 0 < n) (os scale ps : ℝ) :
+    EqualsConvolution img (pixelKernel img.s0 img.s1 os) m n ∧
+    EqualsConvolution img (jitterKernel img.s0 img.s1 scale ps os) m n := by
+  have h := pixel_jitter_hermitian_all_shapes m n hm0 hn0 os scale ps
+  rw [hm, hn]
+  exact ⟨equals_convolution_when_hermitian img _ m n hm hn hm0 hn0 h.1,
+    equals_convolution_when_hermitian img _ m n hm hn hm0 hn0 h.2⟩
+
+example : ∃ m n : ℕ, m % 2 = 0 ∧ n % 2 = 0 ∧ 0 < m ∧ m ≠ n := ⟨4, 6, rfl, rfl, by norm_num, by norm_num⟩
 
 /-- **the blur does not depend on the size of the physical unit.** Expressing the extent and the pixel scale in any other unit
 (both multiplied by `k ≠ 0`: metres, nanometres, radians, milli-arcseconds) gives exactly the same output — in particular a
